@@ -740,6 +740,100 @@ pub fn gen_program(c: &mut Choices, trivia: bool) -> (g::Module, String) {
     (m, text)
 }
 
+
+/// "Wide" programs: one construct of the grammar repeated N times side by side (not nested) — N
+/// statements in a block, N elements, N arguments, N clauses, N items, N variants, N fields, N
+/// parameters, N alternatives, N links of an operator/pipeline/postfix chain.  Parsers with a
+/// progress budget, a fixed-size table or a loop that forgets to refill something fail here and
+/// nowhere else.  The small parts come from the reference grammar's own generator.
+pub fn gen_wide(c: &mut Choices) -> (g::Module, &'static str, usize) {
+    use g::{Arg, ArgValue, Clause, Expr, Function, Item, Module, Param, Pat, Stmt, Ty, Unq, Variant};
+    let form = c.below(22);
+    let n = *c.pick(&[12usize, 40, 120, 350, 350, 700, 700, 1500, 4000]);
+    let mut gen = Gen::new(c, Features { max_depth: 1, ..Features::default() });
+    let fix_minus = |mut out: Vec<Stmt>| {
+        for i in 1..out.len() {
+            let starts_minus = match &out[i] {
+                Stmt::Expr(e) => g::leftmost_is_minus(e),
+                _ => false,
+            };
+            if starts_minus {
+                let s = out[i].clone();
+                out[i] = Stmt::Expr(Expr::Block(vec![s]));
+            }
+        }
+        out
+    };
+    let func = |body: Vec<Stmt>| Item::Fn(Function { public: true, attr: None, name: "wide".into(), params: vec![], ret: None, body: Some(body) });
+    let name = |i: usize| format!("v{}", i);
+    let (items, what): (Vec<Item>, &'static str) = match form {
+        0 => (vec![func(fix_minus((0..n).map(|_| Stmt::Expr(gen.expr(1))).collect()))], "expression statements in one block"),
+        1 => {
+            let mut b: Vec<Stmt> = (0..n).map(|i| Stmt::Let { assert: false, pat: Pat::Var(name(i)), ty: None, value: gen.expr(1) }).collect();
+            b.push(Stmt::Expr(Expr::Var("v0".into())));
+            (vec![func(b)], "let statements in one block")
+        }
+        2 => {
+            let mut b = vec![];
+            while b.len() < n {
+                b.extend(gen.block_stmts(1));
+            }
+            b.push(Stmt::Expr(Expr::Var("a".into())));
+            (vec![func(fix_minus(b))], "mixed statements in one block")
+        }
+        3 => (vec![func(vec![Stmt::Expr(Expr::List((0..n).map(|_| gen.expr(1)).collect(), None))])], "list elements"),
+        4 => (vec![func(vec![Stmt::Expr(Expr::Tuple((0..n).map(|_| gen.expr(1)).collect()))])], "tuple elements"),
+        5 => {
+            let args = (0..n).map(|i| Arg { label: if i % 3 == 2 { Some(name(i)) } else { None }, value: ArgValue::Expr(gen.expr(1)) }).collect();
+            (vec![func(vec![Stmt::Expr(Expr::Call(Box::new(Expr::Var("f".into())), args))])], "call arguments")
+        }
+        6 => {
+            let clauses = (0..n).map(|i| Clause { alts: vec![vec![if i + 1 == n { Pat::Discard("_".into()) } else { Pat::Int(i.to_string()) }]], guard: None, body: gen.expr(1) }).collect();
+            (vec![func(vec![Stmt::Expr(Expr::Case(vec![Expr::Var("a".into())], clauses))])], "case clauses")
+        }
+        7 => ((0..n).map(|i| { let mut f = gen.function(); f.name = name(i); Item::Fn(f) }).collect(), "functions in one module"),
+        8 => ((0..n).map(|i| Item::Const { public: i % 2 == 0, name: name(i), ty: None, value: Expr::Int(i.to_string()) }).collect(), "constants in one module"),
+        9 => (vec![Item::Type { public: true, opaque: false, name: "Wide".into(), params: vec![], variants: (0..n).map(|i| Variant { name: format!("V{}", i), fields: if i % 2 == 0 { vec![] } else { vec![(None, gen.ty(1))] } }).collect() }], "variants of one type"),
+        10 => (vec![Item::Type { public: true, opaque: false, name: "Wide".into(), params: vec![], variants: vec![Variant { name: "Wide".into(), fields: (0..n).map(|i| (if i % 2 == 0 { Some(name(i)) } else { None }, gen.ty(1))).collect() }] }], "fields of one variant"),
+        11 => (vec![Item::Import { path: vec!["m".into()], unqualified: (0..n).map(|i| Unq { is_type: i % 4 == 0, name: if i % 4 == 0 { format!("T{}", i) } else { name(i) }, alias: None }).collect(), alias: None }], "unqualified imports"),
+        12 | 13 | 14 => {
+            let m = n.min(400);
+            let op: &'static str = match form { 12 => "+", 13 => "|>", _ => "<>" };
+            let mut e = Expr::Var("a".into());
+            for i in 0..m {
+                let rhs = if form == 13 { Expr::Var(name(i)) } else { Expr::Var(name(i)) };
+                e = Expr::Binary(op, Box::new(e), Box::new(rhs));
+            }
+            (vec![func(vec![Stmt::Expr(e)])], "links of one operator chain")
+        }
+        15 => {
+            let m = n.min(400);
+            let mut e = Expr::Var("a".into());
+            for i in 0..m {
+                e = match i % 3 { 0 => Expr::Field(Box::new(e), name(i)), 1 => Expr::Call(Box::new(e), vec![]), _ => Expr::Field(Box::new(e), "x".into()) };
+            }
+            (vec![func(vec![Stmt::Expr(e)])], "links of one postfix chain")
+        }
+        16 => (vec![Item::Fn(Function { public: false, attr: None, name: "wide".into(), params: (0..n).map(|i| Param { label: if i % 3 == 0 { Some(format!("l{}", i)) } else { None }, name: name(i), ty: if i % 2 == 0 { Some(gen.ty(1)) } else { None } }).collect(), ret: None, body: Some(vec![Stmt::Expr(Expr::Var("v0".into()))]) })], "parameters of one function"),
+        17 => {
+            let pat = Pat::Tuple((0..n).map(|i| if i % 2 == 0 { Pat::Var(name(i)) } else { gen.pat(1) }).collect());
+            (vec![func(vec![Stmt::Let { assert: false, pat, ty: None, value: Expr::Var("a".into()) }, Stmt::Expr(Expr::Var("a".into()))])], "elements of one tuple pattern")
+        }
+        18 => {
+            let alts = (0..n).map(|i| vec![Pat::Int(i.to_string())]).collect();
+            let clauses = vec![Clause { alts, guard: None, body: Expr::Int("1".into()) }, Clause { alts: vec![vec![Pat::Discard("_".into())]], guard: None, body: Expr::Int("2".into()) }];
+            (vec![func(vec![Stmt::Expr(Expr::Case(vec![Expr::Var("a".into())], clauses))])], "alternatives of one clause")
+        }
+        19 => (vec![Item::Alias { public: true, name: "Wide".into(), params: vec![], body: Ty::Named { module: None, name: "T".into(), args: (0..n).map(|_| gen.ty(1)).collect() } }], "type arguments"),
+        20 => (vec![Item::Alias { public: false, name: "Wide".into(), params: vec![], body: Ty::Fn((0..n).map(|_| gen.ty(1)).collect(), Box::new(Ty::Tuple((0..n.min(200)).map(|_| gen.ty(0)).collect()))) }], "parameters of one fn type"),
+        _ => {
+            let pat = Pat::List((0..n).map(|i| Pat::Var(name(i))).collect(), Some(Some("rest".into())));
+            (vec![func(vec![Stmt::Let { assert: true, pat, ty: None, value: Expr::Var("a".into()) }, Stmt::Expr(Expr::Var("rest".into()))])], "elements of one list pattern")
+        }
+    };
+    (g::norm_module(Module { items }), what, n)
+}
+
 impl Property for C04 {
     fn id(&self) -> &'static str {
         "C04"
@@ -870,6 +964,34 @@ impl Property for C04 {
                 }
             }
             ctx.sample("generated module", || json!({"text": clip(&text, 500)}));
+            Ok(())
+        });
+        // (c) wide programs: one construct repeated 12..4000 times side by side
+        let wide_cases = ctx.tier.pick(6_000, 60_000);
+        ctx.run_streams("c04-wide", wide_cases, 200, |ctx, bytes| {
+            let mut c = Choices::new(bytes);
+            let (m, what, n) = gen_wide(&mut c);
+            let want = g::shape_module(&m);
+            let text = if c.chance(128) {
+                let mut p = Printer::with_trivia(&mut c);
+                p.module(&m);
+                p.out
+            } else {
+                let mut p = Printer::plain();
+                p.module(&m);
+                p.out
+            };
+            if has_chained_index(&text) {
+                ctx.excluded("would-be chained tuple index (known finding C04-F1)");
+                return Ok(());
+            }
+            check_program(ctx, &text, &want, "wide program")?;
+            ctx.class(&format!("wide: {}", what));
+            ctx.class(&format!("wide: repeated {}", if n >= 1000 { ">=1000 times" } else if n >= 300 { "300-999 times" } else { "<300 times" }));
+            if n >= 300 {
+                ctx.nontrivial(hash_str(&want));
+            }
+            ctx.sample("wide program", || json!({"what": what, "n": n, "text": clip(&text, 300)}));
             Ok(())
         });
     }
